@@ -135,8 +135,16 @@ static Json::Value genC18(Rng& rng) {
     a["coeff_backoff"] = rng.pick<std::string>({"5", "20"});
   if (immediate)
     a["immediate_backoff"] = "true";
-  if (rng.chance(0.1))
+  if (rng.chance(0.2)) {
     a["memory_high_timeout_ms"] = "50";
+    // some of the writes made under that timeout block in the kernel (after
+    // the value has taken effect) until the helper thread is signalled
+    if (rng.chance(0.7)) {
+      int n = (int)rng.range(2, 4);
+      for (int i = 0; i < n; i++)
+        plan["slow_write"].append((int)rng.range(0, 5));
+    }
+  }
   if (rng.chance(0.5))
     a["swap_threshold"] = rng.pick<std::string>({"0.1", "0.5", "0.8", "0"});
   if (rng.chance(0.5))
